@@ -51,7 +51,8 @@ def r1_exit_paths(report, repo):
     return None
   fin = core.calls_in(f.node, name='self._executor.finalize')
   loops = [n for n in walk_no_nested(f.node) if isinstance(n, ast.For) and
-           ends_with(dotted(n.iter) or '', 'output_callbacks')]
+           any(isinstance(x, ast.Attribute) and x.attr == 'output_callbacks'
+               for x in ast.walk(n.iter))]
   report.expect_instances(rule, len(fin), 1, 'finalize calls')
   report.check(all(core.in_block(c, outer, 'finalbody') for c in fin) and
                len(loops) == 1 and core.in_block(loops[0], outer, 'finalbody'),
